@@ -19,13 +19,15 @@
 (* log  = the result of every call under the DEFINITIONAL semantics        *)
 (*        (FnEval!Eval); it is the oracle of the conformance replay.       *)
 (* ilog = the result of every call under the implementation-shaped         *)
-(*        evaluator FnEval!EvalI (captured variables stored on the syntax  *)
-(*        token, shared argument-token lists, fixed arguments evaluated at *)
-(*        call time).  It is NOT an oracle; TLC is asked to prove          *)
-(*        AsImplementedAgrees and must come back with a counterexample     *)
-(*        (the sharing defect as an invariant violation), and the replay   *)
-(*        uses it only to classify a failure ("observed = what the token   *)
-(*        sharing design computes").                                       *)
+(*        evaluator FnEval!EvalI, which follows the CURRENT code of /repo. *)
+(*        It is NOT an oracle; TLC is asked to prove AsImplementedAgrees   *)
+(*        and must come back with a counterexample as long as the          *)
+(*        implementation design deviates (first the token-sharing defect:  *)
+(*        captured variables on the syntax token, repaired in e070bf1;     *)
+(*        now the static partial application concat($i, ?) whose fixed     *)
+(*        arguments are evaluated at call time), and the replay uses it    *)
+(*        only to classify a failure ("observed = what the modelled        *)
+(*        design computes").                                               *)
 (*                                                                         *)
 (* Both logs are functions of the history (recomputed by folding over the  *)
 (* events), so the state stays a compact history and the dumped graph is a *)
